@@ -150,7 +150,9 @@ func c08Monitor(o lexOpts, src string, out lexOut) (bool, string, string) {
 				}
 				delim = unescapeDelim(d)
 			// (a DELIMITER command at the start of a statement takes precedence over the delimiter itself)
-			case delim != "" && strings.HasPrefix(gap, delim):
+			// (the scanner reads runes: a delimiter that is only the first byte(s) of a multi-byte white-space
+			// rune - possible for a delimiter that is not valid UTF-8 - does not match there)
+			case delim != "" && strings.HasPrefix(gap, delim) && !(unicode.IsSpace(r) && w > len(delim)):
 				gap = gap[len(delim):]
 			case unicode.IsSpace(r):
 				gap = gap[w:]
